@@ -274,6 +274,9 @@ impl Request {
             ))).then_some(()).ok_or_else(Response::BadRequest)?;
             r.consume(": ").ok_or_else(Response::BadRequest)?;
             let value = r.read_while(|b| b != &b'\r');
+            /* a field value holds no control byte but HTAB (RFC 9110 5.5: a value with NUL, LF, ... is invalid and dangerous) */
+            value.iter().all(|b| matches!(b, b'\t' | b' '..=b'~' | 0x80..)).then_some(())
+                .ok_or_else(Response::BadRequest)?;
             /* header names and values are seen as `str` */
             (std::str::from_utf8(key_bytes).is_ok() && std::str::from_utf8(value).is_ok()).then_some(())
                 .ok_or_else(Response::BadRequest)?;
